@@ -112,7 +112,11 @@ def solve_job(job):
     attempts.append(('z3-4.8', r3, round(time.time() - t2, 3)))
     if r3 == 'unsat':
         return key, 'unsat', 'z3-4.8', time.time() - t0, d3, attempts
-    # last retry with a long budget on z3 5.1
+    if tier != 'thorough':
+        if r3 == 'sat' or r2 == 'sat':
+            return key, 'sat', 'mixed', time.time() - t0, d, attempts
+        return key, 'unknown', 'none', time.time() - t0, f"z3: {d}; cvc5: {d2}; z3-4.8: {d3}", attempts
+    # last retry with a long budget on z3 5.1 (thorough tier only)
     t3 = time.time()
     r4, d4 = _solve_z3(text, RETRY_TIMEOUT_MS)
     attempts.append(('z3-5.1-long', r4, round(time.time() - t3, 3)))
@@ -130,38 +134,116 @@ def solve_job(job):
     return key, 'unknown', 'none', time.time() - t0, f"z3: {d}; cvc5: {d2}; z3-4.8: {d3}", attempts
 
 
+CACHE_DIR = os.path.join(os.path.dirname(os.path.dirname(os.path.abspath(__file__))), 'build', 'vc_cache')
+MAX_FALLBACK_PER_FUNCTION = 6
+
+
+def _cache_get(h):
+    if os.environ.get('PYVC_NO_CACHE'):
+        return None
+    p = os.path.join(CACHE_DIR, h + '.json')
+    if os.path.exists(p):
+        try:
+            import json
+            return json.load(open(p))
+        except Exception:
+            return None
+    return None
+
+
+def _cache_put(h, rec):
+    if os.environ.get('PYVC_NO_CACHE'):
+        return
+    import json
+    os.makedirs(CACHE_DIR, exist_ok=True)
+    tmp = os.path.join(CACHE_DIR, f".{h}.{os.getpid()}.tmp")
+    with open(tmp, 'w') as fh:
+        json.dump(rec, fh)
+    os.replace(tmp, os.path.join(CACHE_DIR, h + '.json'))
+
+
+def solve_first(job):
+    """phase 1: z3 5.1 only, short budget"""
+    key, text, tier = job
+    t0 = time.time()
+    r, d = _solve_z3(text, FIRST_TIMEOUT_MS)
+    return key, r, d, time.time() - t0
+
+
+_OBS = []
+_EXTRA = ()
+_TIER = 'quick'
+
+
+def _prep_and_first(i):
+    """worker (forked after symbolic execution, so the z3 terms are in its address space): build the VC text of
+    obligation i, look it up in the verdict cache, else run phase 1 (z3 5.1, short budget)."""
+    ob = _OBS[i]
+    g = z3.simplify(ob.goal)
+    if z3.is_true(g):
+        return i, None, 'unsat', 'trivial', 0.0, '', None, 0, False
+    text = to_smt2(obligation_formulas(ob, _EXTRA))
+    h = hashlib.sha256(text.encode()).hexdigest()
+    if _TIER != 'thorough':
+        c = _cache_get(h)
+        if c is not None and c.get('verdict') == 'unsat':
+            return i, h, 'unsat', c['backend'], c['seconds'], '', None, len(text), True
+        t0 = time.time()
+        r, d = _solve_z3(text, FIRST_TIMEOUT_MS)
+        secs = time.time() - t0
+        if r == 'unsat':
+            _cache_put(h, dict(verdict='unsat', backend='z3-5.1', seconds=secs))
+            return i, h, 'unsat', 'z3-5.1', secs, d, None, len(text), False
+        return i, h, r, 'z3-5.1', secs, d, text, len(text), False
+    return i, h, 'todo', '', 0.0, '', text, len(text), False
+
+
 def discharge(obligations, tier='quick', jobs=None, extra_axioms=()):
-    """Returns dict index -> result dict."""
+    """Returns (dict index -> result dict, dict sha -> VC text of the undischarged ones).
+    Verdicts of VC texts already proved `unsat` are reused from build/vc_cache (keyed by the SHA-256 of the exact
+    SMT-LIB text, which is regenerated from the current source tree on every run); nothing else is cached."""
+    global _OBS, _EXTRA, _TIER
+    _OBS, _EXTRA, _TIER = list(obligations), tuple(extra_axioms), tier
+    jobs = jobs or min(16, os.cpu_count() or 4)
+    out = {}
     texts = {}
-    keys = []
-    for i, ob in enumerate(obligations):
-        g = z3.simplify(ob.goal)
-        if z3.is_true(g):
-            keys.append(None)
+    if not _OBS:
+        return out, texts
+    ctx = mp.get_context('fork')
+    idx = list(range(len(_OBS)))
+    if len(idx) <= 2 or jobs == 1:
+        first = [_prep_and_first(i) for i in idx]
+    else:
+        with ctx.Pool(min(jobs, len(idx))) as pool:
+            first = pool.map(_prep_and_first, idx, chunksize=4)
+    pending = {}
+    per_owner = {}
+    for i, h, r, backend, secs, d, text, size, cached in first:
+        if r == 'unsat':
+            out[i] = dict(verdict='unsat', backend=backend, seconds=secs, detail='', size=size, smt2_sha=h,
+                          attempts=[('cache' if cached else backend, 'unsat', round(secs, 3))], cached=cached)
             continue
-        text = to_smt2(obligation_formulas(ob, extra_axioms))
-        h = hashlib.sha256(text.encode()).hexdigest()
         texts[h] = text
-        keys.append(h)
-    uniq = list(texts.items())
-    results = {}
-    if uniq:
-        jobs = jobs or min(16, os.cpu_count() or 4)
-        work = [(h, t, tier) for h, t in uniq]
-        if len(work) == 1 or jobs == 1:
-            outs = [solve_job(w) for w in work]
+        o = _OBS[i].name.split(':')[0]
+        per_owner[o] = per_owner.get(o, 0) + 1
+        if tier != 'thorough' and per_owner[o] > MAX_FALLBACK_PER_FUNCTION and h not in pending:
+            out[i] = dict(verdict='unknown', backend='none', seconds=secs, size=size, smt2_sha=h,
+                          detail=f"z3: {r} {d}; fallback back ends skipped: {o} already has "
+                                 f"{MAX_FALLBACK_PER_FUNCTION} undischarged obligations",
+                          attempts=[('z3-5.1', r, round(secs, 3))])
+            continue
+        pending.setdefault(h, []).append((i, size))
+    if pending:
+        work = [(h, texts[h], tier) for h in pending]
+        if len(work) == 1:
+            outs = [solve_job(work[0])]
         else:
-            ctx = mp.get_context('fork')
             with ctx.Pool(min(jobs, len(work))) as pool:
                 outs = pool.map(solve_job, work, chunksize=1)
         for key, verdict, backend, secs, detail, attempts in outs:
-            results[key] = dict(verdict=verdict, backend=backend, seconds=secs, detail=detail, attempts=attempts,
-                                size=len(texts[key]))
-    out = {}
-    for i, k in enumerate(keys):
-        if k is None:
-            out[i] = dict(verdict='unsat', backend='trivial', seconds=0.0, detail='', attempts=[], size=0)
-        else:
-            out[i] = dict(results[k])
-            out[i]['smt2_sha'] = k
+            if verdict == 'unsat':
+                _cache_put(key, dict(verdict='unsat', backend=backend, seconds=secs))
+            for i, size in pending[key]:
+                out[i] = dict(verdict=verdict, backend=backend, seconds=secs, detail=detail, attempts=attempts,
+                              size=size, smt2_sha=key)
     return out, texts
